@@ -50,6 +50,9 @@ class State(object):
         self.g = new_grid(hszinc, version)
         self.l = []
         self.derived = []      # tags: after-slice / after-filter
+        # grids left behind by a derivation (the parent after 'slice'/'filter', the child after 'fork'): nothing operates
+        # on them any more, so what they look up must stay what it was - [(grid, rows at that time, tag)]
+        self.others = []
 
 
 def model_apply(l, op, pool):
@@ -103,6 +106,8 @@ def model_apply(l, op, pool):
         l.reverse()
     elif t == 'clear':
         del l[:]
+    elif t == 'fork':
+        pass
     elif t == 'slice':
         l = l[slice(op[1], op[2])]
     elif t == 'filter':
@@ -123,6 +128,7 @@ def real_apply(st, op):
     """Apply op to the real grid; returns exception class name or None (st.g may be replaced)."""
     g, pool = st.g, st.pool
     t = op[0]
+    st.rows_before = list(g)
 
     def run():
         if t == 'append':
@@ -155,10 +161,18 @@ def real_apply(st, op):
         elif t == 'slice':
             st.g = g[slice(op[1], op[2])]
             st.derived.append('after-slice')
+            st.others.append((g, st.rows_before, 'parent-of-slice'))
+        elif t == 'fork':
+            child = g[slice(op[1], op[2])]
+            st.others.append((child, st.rows_before[slice(op[1], op[2])], 'forked-slice'))
+            st.derived.append('forked')
         elif t == 'filter':
             st.g = g.filter(op[1])
             st.derived.append('after-filter')
+            st.others.append((g, st.rows_before, 'parent-of-filter'))
         elif t == 'setid':
+            # the rows are shared with the grids left behind, which are not re-indexed: they are not judged any more
+            del st.others[:]
             g[op[1]]['id'] = op[2]
             g.reindex()
         elif t == 'reindex':
